@@ -188,3 +188,29 @@ def keyPayAddrSelf (d : DidState) : Bool :=
 def didInv (d : DidState) : Bool := didFunctional d && didListsAgree d && sidPayAddrBound d && keyPayAddrSelf d
 
 end SaoVerif.Spec
+
+/-! ### Input assumptions of the C17 invariants (evaluated on every operation by the driver: monitor `inputWf`) -/
+namespace SaoVerif
+
+/-- what the harness guarantees about a binding message: "did:sid:<root>" is a sid DID -/
+def bindingWf (m : BindingMsg) : Bool := !m.didMatchesRoot || m.did.isSid
+
+def opWf : Op → Bool
+  | .binding m => bindingWf m
+  | _ => true
+
+/-- the chain address an account id stands for: its third component when it is a cosmos account of this chain -/
+def accAddr (c : AccId) : Addr := if c.cosmos ∧ c.chainOk then c.addr else 0
+
+/-- the description of an account id that comes with a message is the one the registry recorded for that account id, and
+    a cosmos address of this chain is not the empty address -/
+def accWfIn (d : DidState) (c : AccId) : Bool :=
+  (!(c.cosmos && c.chainOk) || c.addr != 0) && d.did.all (fun x => x.accountId != c.raw || x.addr == accAddr c)
+
+def opWfIn (d : DidState) : Op → Bool
+  | .binding m => bindingWf m && accWfIn d m.acc
+  | .payaddr m => accWfIn d m.acc
+  | .didupdate m => m.removeAcc.all (accWfIn d)
+  | _ => true
+
+end SaoVerif
